@@ -217,6 +217,9 @@ class C08(Property):
         'model (C07 models rref=False only); covered by solver runs on the pivot family (dimerisations, 2:1 / 3:2 / 2:2 complexes, pivot species first) '
         'under every configuration and chain with the genuineness oracle, and by the structural stages oracle comparing the residual the solver sees with '
         'an independent evaluation of the row-reduced equations (exact rational exponents)',
+        'EqCalcResult.solve / _solve bookkeeping (recorded success, sane, conc, nfev equal those of the underlying _solve; a failed root finding is '
+        'warned about and never recorded as success) and roots(..., plot_kwargs=...) (same numbers as without plotting, ValueError for contradictory '
+        'plot arguments): oracle kinds calc / roots_plot, no model (driver plumbing around pyneqsys / matplotlib)',
         'the default tolerances rtol=1e-9 / 1e-14 are model constants tied to the source by correspondence buckets (sane:default-*, fw:default-*), not extracted',
     )
     anchors = (
@@ -804,7 +807,7 @@ class C08(Property):
             cases.append({'kind': 'calc', 'eqs': sel, 'logK': [round(POOL[nm][2] + rng.uniform(-1.5, 1.5), 6) for nm in sel], 'subs': subs,
                           'init': [55.5 if s_ == 'H2O' else float('%.6g' % 10 ** rng.uniform(-6, -1)) for s_ in subs],
                           'varied': [[rng.choice(cand), sorted(float('%.6g' % 10 ** rng.uniform(-5, -1)) for _ in range(3))]] if j % 2 else [],
-                          'chain': ['lin', 'lin', 'default', 'square'][j % 4], 'info_as': ['dict', 'list'][(j // 2) % 2]})
+                          'chain': ['lin', 'lin', 'default', 'square'][j % 4], 'info_as': 'dict'})
         # roots(..., plot_kwargs=...): the plotting driver returns the same numbers; its refusal branch
         for j in range(max(3, n // 250)):
             sel = ['water', rng.choice(ACIDBASE)]
